@@ -547,6 +547,16 @@ func C10(c *core.Ctx) {
 		}
 	}
 
+	// R2: the trigger octets the SMF receives are the three flag octets (C19 R3 encoders)
+	shareFrom(c, "C19", "R2", func(o *core.Obligation) bool {
+		return o.Rule == "R3" && strings.Contains(o.Key, "/R3/encode") && strings.Contains(o.Key, "UsageReportTrigger")
+	}, 3, "Usage Report Trigger encoder obligations")
+	// R5: a URR known to the session stays known until its final report was emitted (C11 R3), and however many
+	// URRs a tick covers they are queried in batches the data plane can answer (C15 R3)
+	shareFrom(c, "C11", "R5", func(o *core.Obligation) bool {
+		return o.Rule == "R3" && (strings.Contains(o.Key, "/R3/record-dropped") || strings.Contains(o.Key, "/R3/record-writer") || strings.Contains(o.Key, "/R3/record-fresh"))
+	}, 2, "URR record lifetime obligations")
+	shareFrom(c, "C15", "R5", func(o *core.Obligation) bool { return o.Rule == "R3" }, 5, "batching obligations")
 	// R6 cause mapping (shared with C19 R4): the cause a report carries is the one the data plane raised
 	renameRule(c, "R4", "R6", func() { checkCauseMapping(c) })
 
